@@ -182,10 +182,15 @@ def main():
     # heavy functions first (better packing on the process pool)
     heavy = ('encode_sub', 'encode_union', 'encode_struct', 'decode_', 'json_compat')
     order = sorted(targets + canaries, key=lambda t: 0 if any(h in t for h in heavy) else 1)
+    bounded_only = [t for t in order if not t.startswith('lemma:') and CT.REGISTRY[t].opts.get('bounded')]
+    order = [t for t in order if t not in bounded_only]
     jobs = [(t, args.tier, seed, known) for t in order]
     with multiprocessing.Pool(min(args.jobs, len(jobs))) as pool:
         reports = pool.map(cached_worker, jobs, chunksize=1)
     by_target = dict((r['target'], r) for r in reports)
+    for t in bounded_only:
+        # functions outside the VC generator's reach in this revision: bounded stand-in only
+        by_target[t] = {'target': t, 'obligations': [], 'paths': 0, 'unsupported': None, 'bounded_only': True}
 
     fault = []
     # canaries must be refuted
@@ -203,6 +208,7 @@ def main():
     funcs = []
     samples = []
     bounded_checks = []
+    bounded_only_funcs = []
     pending_hits = []
     replay_dir = os.environ.get('VERIF_REPLAY_DIR', os.path.join(HERE, 'replays'))
     os.makedirs(replay_dir, exist_ok=True)
@@ -218,7 +224,7 @@ def main():
                       'discharged': sum(1 for o in r['obligations'] if o['status'] == 'discharged'),
                       'seconds': r.get('seconds'), 'solver_seconds': r.get('solver_seconds'),
                       'inlined': r.get('inlined'), 'assumptions': r.get('assumptions'), 'reused_from_cache': bool(r.get('cached')),
-                      'unsupported': r.get('unsupported')})
+                      'unsupported': r.get('unsupported'), 'bounded_only': bool(r.get('bounded_only'))})
         solver_s += r.get('solver_seconds') or 0.0
         n_obl += len(r['obligations'])
         n_dis += sum(1 for o in r['obligations'] if o['status'] == 'discharged')
@@ -227,9 +233,13 @@ def main():
                 samples.append({'obligation': o['name'], 'status': o['status'], 'path': o['path'][:12]})
         bad = [o for o in r['obligations'] if o['status'] != 'discharged']
         # bounded oracle comparison (never counted as proved): every function, every run
+        n_here = n_search * 4 if r.get('bounded_only') else n_search
         sr = native({'mode': 'search', 'contract_modules': CONTRACT_MODULES, 'target': t,
-                     'n': n_search, 'seed': seed})
-        bounded_checks.append({'name': 'native oracle comparison ' + t, 'bound': '%d sampled inputs' % n_search,
+                     'n': n_here, 'seed': seed})
+        if r.get('bounded_only'):
+            bounded_only_funcs.append(t)
+        bounded_checks.append({'name': ('BOUNDED STAND-IN (not proved): ' if r.get('bounded_only') else '') +
+                               'native oracle comparison ' + t, 'bound': '%d sampled inputs' % n_here,
                                'cases': sr.get('accepted'), 'distinct': sr.get('distinct'),
                                'passed': sr.get('mismatch') is None and 'native_error' not in sr})
         if 'native_error' in sr:
@@ -309,6 +319,7 @@ def main():
         'by_backend': {'z3-%s' % z3_version(): {'obligations': n_obl, 'solver_seconds': round(solver_s, 3)}},
         'bounded_checks': bounded_checks,
         'degraded': degraded,
+        'bounded_only_functions': bounded_only_funcs,
         'proof_missed': proof_missed,
         'undecided': undecided,
         'known_findings_reported': known_reported,
